@@ -213,7 +213,7 @@ func (x *exec) reconcileReal(revName string) error {
 		x.count("establish_ok_"+role, 1)
 		x.checkPostEstablish(ri, active, log)
 		if len(after.GetObjects()) != len(ri.Specs) {
-			x.c.Violate("harness:object-refs-incomplete", x.caseName, fmt.Sprintf("%s has %d object references for %d manifests", revName, len(after.GetObjects()), len(ri.Specs)), x.witness(log))
+			x.c.Violate("revision-object-refs-incomplete", x.caseName, fmt.Sprintf("%s has %d object references for %d manifests", revName, len(after.GetObjects()), len(ri.Specs)), x.witness(log))
 		}
 	}
 	return nil
